@@ -527,8 +527,8 @@ def env_jobs(behs, rng, thorough):
             covered.add((mechs, kind))
             chosen.append(b)
     exposing = [b for b, _ in exposing]
-    chosen += [b for b in exposing if b not in chosen][:60 if thorough else 0]
-    chosen += sorted(quiet[:40], key=cost)[:20 if thorough else 3]
+    chosen += [b for b in exposing if b not in chosen][:30 if thorough else 0]
+    chosen += sorted(quiet[:40], key=cost)[:10 if thorough else 3]
     return [{'env': list(b), 'seeds': {'seed1': rng.randrange(1, 2 ** 31), 'seed2': rng.randrange(1, 2 ** 31)},
              'passphrase': rng.choice(['pw', '123456', UNI_PWS[0]]), 'network': rng.choice(NETS_QUICK), 'compressed': bool(i % 2),
              'supplied': bytes(rng.getrandbits(8) for _ in range(24)).hex()} for i, b in enumerate(chosen)]
